@@ -248,6 +248,11 @@ def c03_oracle(ops, outs):
     for out in outs[1:]:
         if out.startswith("fail:"): return [("harness-" + out.split(" ")[0][5:45], out[:100])]
     rights = kv(ops[0])[1].get("rights", "").split(",")
+    # rows that were MOVED to another room during the history (`upd … room=<r>`)
+    moved = set()
+    for op in ops[1:]:
+        k, a = kv(op)
+        if k == "upd" and a.get("room") not in (None, ""): moved.add(a.get("row"))
     for room0, rounds, quiet, f, peers in final_settles(ops, outs):
       for room in (["1", "2"] if room0 == "0" else [room0]):
         if not quiet:
@@ -257,14 +262,20 @@ def c03_oracle(ops, outs):
         base = peers[0].content(room)
         for i, p in enumerate(peers[1:], 1):
             if p.content(room) == base: continue
-            res.append((_classify_divergence(room, peers, rights), "room %s: peers 0 and %d differ after a quiet round" % (room, i)))
+            sig = _classify_divergence(room, peers, rights)
+            if sig not in KNOWN_CAUSES and _moved_row_involved(peers, moved):
+                sig = "moved-row-diverges"
+            res.append((sig, "room %s: peers 0 and %d differ after a quiet round" % (room, i)))
             found = True
             break
         if not found:
             be = peers[0].visible_edges(room)
             for i, p in enumerate(peers[1:], 1):
                 if p.visible_edges(room) != be:
-                    res.append((_classify_edges(room, peers), "room %s: peers 0 and %d show different references" % (room, i)))
+                    sig = _classify_edges(room, peers)
+                    if sig not in KNOWN_CAUSES and _moved_row_involved(peers, moved):
+                        sig = "moved-row-diverges"
+                    res.append((sig, "room %s: peers 0 and %d show different references" % (room, i)))
                     found = True
                     break
         if f != 0 and not found and room in ("1", room0):
@@ -289,6 +300,31 @@ def _summary(p, room):
     last = max(k[2] for k, _ in rows)
     k, v = min(((k, v) for k, v in rows if k[2] == last), key=lambda x: x[0][1])
     return (last, v["daily"], v["hist"])
+
+
+# causes that have their own, narrower, entry: never re-labelled
+KNOWN_CAUSES = {"same-millisecond-versions-of-one-row-kept", "same-millisecond-deletion-records-collide",
+                "room-summary-compares-first-entity-only", "greater-version-refused-author-lacks-all-rows-right",
+                "reference-older-than-winning-version-not-propagated"}
+
+
+def _moved_row_involved(peers, moved):
+    """the peers disagree on a row that changed room during the history, or on a reference from / to such a row:
+    deletion records, the deletion gate of ingestion and the right checks are all PER ROOM, and a synchronised deletion
+    leaves the references of the row in place; the refinement theorems of C03 assume that rows keep their room"""
+    if not moved: return False
+    for a in range(len(peers)):
+        for b in range(a + 1, len(peers)):
+            pa, pb = peers[a], peers[b]
+            for rid in moved:
+                if pa.nodes.get(rid) != pb.nodes.get(rid): return True
+                ea = {e for e in pa.edges if e[0] == rid or e[1] == rid}
+                eb = {e for e in pb.edges if e[0] == rid or e[1] == rid}
+                if ea != eb: return True
+                ta = {(t["id"], t["room"], t["sig"]) for t in pa.ntombs if t["id"] == rid}
+                tb = {(t["id"], t["room"], t["sig"]) for t in pb.ntombs if t["id"] == rid}
+                if ta != tb: return True
+    return False
 
 
 def _same_ms_versions(peers):
